@@ -181,7 +181,7 @@ func CheckC03(c *Ctx) {
 			w.Count("modified-cover-cases")
 		})
 		// (3) random overlays: a random subset of the 8 Modified metrics defined
-		c.Parallel("overlay-"+v.Name, c.Pick(3_000_000, 60_000_000), 1<<13, func(w *Worker, i int) {
+		c.Parallel("overlay-"+v.Name, c.Pick(3_000_000, 200_000_000), 1<<13, func(w *Worker, i int) {
 			a := gen.RandomAssign(w.R, v)
 			for mi, me := range v.Metrics {
 				if me.BaseOf >= 0 && w.R.Bool() {
@@ -437,7 +437,7 @@ func CheckC04(c *Ctx) {
 			w.counts["realised:"+[]string{"through-base", "through-Modified", "mixed"}[mode]]++
 		})
 	}
-	c.Parallel("raw-random", c.Pick(3_000_000, 40_000_000), 1<<13, func(w *Worker, i int) {
+	c.Parallel("raw-random", c.Pick(3_000_000, 150_000_000), 1<<13, func(w *Worker, i int) {
 		a := gen.MixedAssign(w.R, api.Ver)
 		v4Check(c, w, api, a, w.R.Intn(NStyles), stats, i%300007 == 0)
 		w.Count("raw-random-objects")
@@ -568,7 +568,7 @@ func CheckC11(c *Ctx) {
 	// random raw objects
 	for _, api := range probe.APIs {
 		api := api
-		c.Parallel("raw-"+api.Ver.Name, c.Pick(500_000, 30_000_000), 1<<13, func(w *Worker, i int) {
+		c.Parallel("raw-"+api.Ver.Name, c.Pick(500_000, 100_000_000), 1<<13, func(w *Worker, i int) {
 			a := gen.RandomAssign(w.R, api.Ver)
 			check(w, api, a, w.R.Intn(NStyles))
 			objs.Add(1)
